@@ -438,6 +438,13 @@ def jobs(tier):
                 ka = dict(due_date=2, due_date_is_deadline=False, **({"optional": True} if oa else {}))
                 kb = dict(due_date=3, due_date_is_deadline=False, priority=2, **({"optional": True} if ob else {}))
                 out.append({"program": prog(H, [pool[x]("a", **ka), pool[y]("b", **kb)] + decls), "family": lab})
+    # an optional task too long to fit in the horizon can only be left out - and must then be inert (its length,
+    # like its dates, belongs to a task that is not there)
+    for dur_b in (H + 3, H + 5):
+        for (lab, decls) in elements(H, tier):
+            if lab in ("bare", "worker", "cumulative", "TaskPrecedence", "ind:utilization") or lab.startswith("obj:"):
+                out.append({"program": prog(H, [fixed("a", 1), fixed("b", dur_b, optional=True)] + decls), "family": lab + "/too-long"})
+    out.append({"program": prog(H, [fixed("a", 2), fixed("b", H + 3, optional=True), fixed("c", H + 4, optional=True)]), "family": "bare/too-long"})
     # three tasks, two optional, list constraints
     sc3 = [fixed("a", 1, optional=True), fixed("b", 1, optional=True), fixed("c", 2)]
     for (lab, decls) in [
